@@ -3,7 +3,7 @@ from __future__ import annotations
 import importlib, os, pkgutil, sys, time, json
 from .contract import Registry
 from .verify import verify_function
-from .solve import solve_all
+from .solve import solve_all_split as solve_all
 
 ROOT = os.path.dirname(os.path.dirname(os.path.abspath(__file__)))
 
